@@ -100,6 +100,23 @@ def length_guard_class(n, value=None):
         return "value-dependent", f"Err when len {op} {c}, reachable for a library output of up to {m} bytes"
     return None
 
+def _static_region_width(run, r, loc):
+    """Static byte width of a location (a whole buffer or a region of one with constant bounds), if known."""
+    if loc[0] != "R":
+        c = run.interp.content(r.path, loc) if loc[0] != "T" else loc[1]
+        return run.norm.width(run.norm.n(c))
+    base, lo, hi = loc[1], loc[2], loc[3]
+    if not (isinstance(lo[0], int) and isinstance(hi[0], int)):
+        return None
+    if lo[1] == 0 and hi[1] == 0:
+        return hi[0] - lo[0]
+    bw = _static_region_width(run, r, base)
+    if bw is None:
+        return None
+    a = lo[0] if lo[1] == 0 else bw + lo[0]
+    b = hi[0] if hi[1] == 0 else bw + hi[0]
+    return b - a if 0 <= a <= b <= bw else None
+
 def classify_generic(run, r):
     """callee-reported / statically-impossible / value-dependent"""
     n = run.norm.n(r.ret)
@@ -152,6 +169,11 @@ def classify_generic(run, r):
                 return lg
             return "value-dependent", "explicit Err under guard " + gc
         if root[0] == "tryarray":
+            # slice -> [u8; n]: impossible to fail iff the slice's static width is n
+            _, ptr, n, _byval = root
+            w = _static_region_width(run, r, ptr[1]) if isinstance(ptr, tuple) and len(ptr) == 2 else None
+            if w is not None and w == n:
+                return "statically-impossible", f"conversion of a {w}-byte slice to [u8; {n}]"
             return "value-dependent", "length test " + repr(root)[:200]
     return "value-dependent", s[:300]
 
